@@ -888,8 +888,11 @@ def _leak(f):
 def _identity(f):
     """`is` / `is not` between two values that are not singletons."""
     out = []
+    asserted = {id(y) for a_ in ast.walk(f.node) if isinstance(a_, ast.Assert) for y in ast.walk(a_.test)}
     for x in ast.walk(f.node):
         if isinstance(x, ast.Compare) and any(isinstance(o, (ast.Is, ast.IsNot)) for o in x.ops):
+            if id(x) in asserted:
+                continue            # an assertion that two names are one object says just that
             ops = [x.left] + x.comparators
             if any(isinstance(o, ast.Constant) and (o.value is None or isinstance(o.value, bool))
                    for o in ops):
